@@ -532,3 +532,24 @@ def stratify_large(shapes, L, I):
         if core[f] not in out:
             out.append(core[f])
     return out
+
+
+def stale_variant(tpl):
+    """Same structure, but every separator is a key of its own lying strictly
+    between the largest key to its left and the smallest key to its right
+    (a 'stale' separator: legal by the documented invariant
+    sep(i) <= keys(child i) < sep(i+1), found in stored trees, but not equal to
+    any stored key).  Returns None when the template has no separator."""
+    if tpl[0] != 'T':
+        return None
+
+    def conv(n):
+        if n[0] == 'B':
+            return ('B', tuple(2 * r for r in n[1]))
+        out = []
+        for i, x in enumerate(n[1]):
+            out.append(2 * x - 1 if i % 2 else conv(x))
+        return ('T', tuple(out))
+    t2 = conv(tpl)
+    ks = sorted(set(all_keys(t2)))
+    return rerank(t2, {k: i for i, k in enumerate(ks)})
